@@ -177,6 +177,7 @@ fn scenario_files<R: Rng>(rng: &mut R, quick: bool) -> (Vec<FileSpec>, &'static 
                     // a malformed wire bank next to a good TRG bank: vertices row empty, scalers row filled
                     Event { id: 1, serial, ts: t0, banks: vec![trg_bank(ts, rng), Bank { name: "C09A".into(), data: vec![1, 3, 0, 0] }] }
                 }
+                10 => Event { id: 1, serial, ts: t0, banks: vec![] }, // a main event without any bank: still one (empty) row
                 _ => Event { id: 1, serial, ts: t0, banks: vec![trg_bank(ts, rng)] },
             };
             events.push(ev);
